@@ -1,4 +1,3 @@
-pub mod constants {
     pub mod coil {
 //@item rodbus/src/constants.rs | coil::ON
 //@item rodbus/src/constants.rs | coil::OFF
@@ -20,4 +19,3 @@ pub mod constants {
 //@item rodbus/src/constants.rs | exceptions::GATEWAY_PATH_UNAVAILABLE
 //@item rodbus/src/constants.rs | exceptions::GATEWAY_TARGET_DEVICE_FAILED_TO_RESPOND
     }
-}
